@@ -397,11 +397,17 @@ impl<'a> Machine<'a> {
             Op::DeleteEdges(del) => {
                 let oob = del.iter().any(|e| *e >= ne);
                 let eid: Vec<EdgeId> = del.iter().map(|e| EdgeId(*e)).collect();
+                let alias = i % 3 == 0; // the deprecated name `delete_edge` now and then
                 let r = self.ex.lib_try(crate::runner::DEFAULT_BUDGET, || {
                     let mut g = self.real.clone();
                     g.delete_edges(&eid);
                     let mut b = self.bare.clone();
-                    b.delete_edges(&eid);
+                    if alias {
+                        #[allow(deprecated)]
+                        b.delete_edge(&eid);
+                    } else {
+                        b.delete_edges(&eid);
+                    }
                     (g, b)
                 });
                 match r {
@@ -539,7 +545,16 @@ impl<'a> Machine<'a> {
         let before_bare = self.bare.clone();
         let had_pending = !self.m.q.is_empty();
         let id = self.id;
-        let (r, rb) = self.ex.lib(&format!("{}:quotient", id), || (self.real.quotient(), self.bare.quotient()))?;
+        let alias = i % 4 == 1; // the deprecated name `quotient_witness` now and then
+        let (r, rb) = self.ex.lib(&format!("{}:quotient", id), || {
+            let r = if alias {
+                #[allow(deprecated)]
+                self.real.quotient_witness()
+            } else {
+                self.real.quotient()
+            };
+            (r, self.bare.quotient())
+        })?;
         match (r, rb) {
             (Err(_), Err(_)) => {
                 if conflict.is_none() {
